@@ -241,6 +241,8 @@ def finish(prop, tier, seed, level, result, coverage, assumptions, started):
         print(f'  detail={json.dumps(jsonable(v.detail))[:600]}')
         shown += 1
     coverage = dict(coverage)
+    if not result.samples and not coverage.get('samples'):
+        raise Broken('the run recorded no sample case for its evidence')
     coverage.setdefault('counters', dict(sorted(result.counters.items())))
     coverage.setdefault('samples', result.samples[:4])
     coverage['violations_by_key'] = dict(sorted(result.by_key.items()))
